@@ -13,7 +13,7 @@
 From V.lib Require Import Base.
 From V.c13 Require Import C13Model.
 From V.c15 Require Import C15Model.
-From V.c16 Require Import C16SeiProofs C16ParseModel C16ParseProofs C16ParseErProofs.
+From V.c16 Require Import C16SeiProofs C16ParseModel C16ParseProofs C16ParseErProofs C16ParseSimProofs.
 
 (* every scaling list has at most 64 entries *)
 Definition scaling_sizes (l : list (option (list Z))) : Prop :=
@@ -86,6 +86,20 @@ Theorem C16_guarded_count_loop_slice_group_id_total : forall (fuel : nat) (n w :
                lenN l + mu_er s' <= mu_er s /\ lenN l <= n.
 Proof. exact slice_group_id_loop_er_total. Qed.
 Print Assumptions C16_guarded_count_loop_slice_group_id_total.
+
+(* the wrappers compute exactly what the C15 models compute wherever those are defined (do not hit their
+   constant 2^16 loop cap): C15's value-level correspondence with /repo carries over to c16_parse_* *)
+Theorem C16_avc_ParsePPSNALUnit_agrees_with_C15_model : forall (spsmap : N -> option N) (nalu : list N),
+  parse_pps_er spsmap nalu <> OutOfFuel -> c16_parse_pps spsmap nalu = parse_pps_er spsmap nalu.
+Proof. exact c16_parse_pps_agrees. Qed.
+Print Assumptions C16_avc_ParsePPSNALUnit_agrees_with_C15_model.
+
+Theorem C16_avc_ParseSliceHeader_agrees_with_C15_model :
+  forall (spsmap : N -> option sps) (ppsmap : N -> option pps) (nalu : list N),
+  parse_slice_er spsmap ppsmap nalu <> OutOfFuel ->
+  c16_parse_slice spsmap ppsmap nalu = parse_slice_er spsmap ppsmap nalu.
+Proof. exact c16_parse_slice_agrees. Qed.
+Print Assumptions C16_avc_ParseSliceHeader_agrees_with_C15_model.
 
 (* the constant cap of the C15 model is what these wrappers remove: on this 14-byte PPS (2 slice groups,
    map type 6, pic_size_in_map_units_minus1 = 2^32-2) C15Model.parse_pps gives up (OutOfFuel: count
